@@ -43,9 +43,9 @@ func (world) Rule(p string) string {
 	case "C15", "C16":
 		return "one run = 1-3 real blocktree.BlockTree instances fed the same generated blocks (depth<=12, siblings, primary/secondary marks, tied arrival instants) through per-node inboxes whose delivery order, duplication and interleaving with finalisations are tape-chosen; after every event the touched node is compared with a reference tree built from parent links (block set, leaves, best block, pruned set, ancestry/LCA/range/by-number queries on sampled and finally all pairs). A run is non-trivial if it finalised at least once with >=2 blocks in the tree or delivered out of order/duplicated; distinct = distinct event-kind sequence fingerprint."
 	case "C17":
-		return "one run = a real dot/state BlockState+StorageState over simdisk inside a synctest bubble; blocks with real state tries are imported in tape-chosen order, finalisation requests target descendants, the head again, stale ancestors, pruned siblings and unknown hashes; restarts reload from the simulated disk. After every request: accepted => known descendant; rejected => head/tree/unfinalised/tries unchanged; every finalised-chain block resolvable by number from the DB; no abandoned block retrievable as unfinalised, no abandoned state trie cached. Non-trivial = at least one accepted finalisation that abandoned >=1 block or one restart."
+		return "one run = a real dot/state BlockState+StorageState over simdisk inside a synctest bubble; blocks with real state tries are imported in tape-chosen order, finalisation requests target descendants, the head again, stale ancestors, pruned siblings and unknown hashes; restarts reload from the simulated disk; in half of the finalisations a concurrent reader gets its turn between the disk writes of SetFinalisedHash (HasHeader/GetHeader of any block ever produced, tape-chosen per write). After every request: accepted => known descendant; rejected => head/tree/unfinalised/tries unchanged; every finalised-chain block resolvable by number from the DB; no abandoned block retrievable as unfinalised, no abandoned state trie cached. Non-trivial = at least one accepted finalisation that abandoned >=1 block or one restart."
 	case "C23":
-		return "one run = a real dot/state GrandpaState+BlockState with the real dot/digest BlockImportHandler over the simulated disk; a generated block tree with forks carries real GRANDPA consensus digests (scheduled changes with delay 0-3, forced changes with delay 0-2, one pending scheduled change per branch at a time, at most one pending forced change per fork); blocks are imported in order (HandleDigests then ApplyForcedChanges, as dot/core does), finalisations target any live block but never jump over the effective block of a pending scheduled change (the cap an honest voter respects), and the finalisation handler's ApplyScheduledChanges step is delivered immediately or after later imports. After every step current set id, the authority list of every set and (when no forced change happened) the set id of every block number are compared with a reference Substrate authority-set model. Non-trivial = at least one change applied."
+		return "one run = a real dot/state GrandpaState+BlockState with the real dot/digest BlockImportHandler over the simulated disk; a generated block tree with forks carries real GRANDPA consensus digests (scheduled changes with delay 0-3, forced changes with delay 0-2, one pending scheduled change per branch at a time, at most one pending forced change per fork; a third of the forced-change headers also carry a scheduled-change item, before or after the forced one, which Substrate ignores); blocks are imported in order (HandleDigests then ApplyForcedChanges, as dot/core does), finalisations target any live block but never jump over the effective block of a pending scheduled change (the cap an honest voter respects), and the finalisation handler's ApplyScheduledChanges step is delivered immediately or after later imports. After every step current set id, the authority list of every set and (when no forced change happened) the set id of every block number are compared with a reference Substrate authority-set model. A fifth of the runs may also finalise past the announcing block of a pending forced change; from then on only the invariants that hold under every reading are checked (every set up to the current one has authorities; no set holds the list of a scheduled change announced together with a forced change). Non-trivial = at least one change applied."
 	case "C26":
 		return "one run = a real dot/state EpochState+BlockState (+ the real dot/digest BlockImportHandler) over the simulated disk; generated blocks on competing forks with tape-chosen slot gaps (epoch length 10, skipped epochs included) announce next-epoch data and configuration in the first block of an epoch on their chain (sometimes not at all); blocks are imported, finalised (followed by the persistence steps of the digest handler), the node is crashed and restarted (unfinalised blocks re-imported); for live blocks the epoch data and configuration of their epoch and the next one are looked up under a 40 s wall-clock watchdog and compared with what walking that block's own ancestry finds (latest earlier configuration, genesis as fallback). A lookup that does not return is a violation. Non-trivial = at least one finalisation or restart."
 	case "C36":
